@@ -98,7 +98,7 @@ func CfgAggCacheDefault(syntax string) bool { return syntax == "command" }
 const CfgAggDropRawDefault = false
 
 // CfgRewriterNotDefault: docs/rewriting.md: the structured syntax "also supports an extra field: not";
-// the command has no way to give it, and the examples write `not = ''` for "no exception".
+// the command has no way to give it, and the examples write an empty string for "no exception".
 const CfgRewriterNotDefault = ""
 
 // CfgLookup returns the documented option called name from a table.
